@@ -19,10 +19,10 @@ func genFilterQuery(r *rand.Rand, schema models.IndexSchema, name string) *model
 	switch sv.Type {
 	case models.IndexTypeString:
 		op := pick(r, []string{models.OperatorEquals, models.OperatorNotEquals, models.OperatorStartsWith, models.OperatorGreaterThan, models.OperatorGreaterOrEq, models.OperatorLessThan, models.OperatorLessOrEq, models.OperatorInRange})
-		v := genString(r)
+		v := genQueryString(r)
 		o := &models.SearchStringOptions{Value: v, Operator: op}
 		if op == models.OperatorInRange {
-			e := genString(r)
+			e := genQueryString(r)
 			if e == v {
 				e = v + "z"
 			}
@@ -73,13 +73,22 @@ func genFilterQuery(r *rand.Rand, schema models.IndexSchema, name string) *model
 		n := 1 + r.IntN(3)
 		vals := make([]string, n)
 		for i := range vals {
-			vals[i] = genString(r)
+			vals[i] = genQueryString(r)
 		}
 		q.StringArray = &models.SearchStringArrayOptions{Value: vals, Operator: pick(r, []string{models.OperatorContainsAll, models.OperatorContainsAny})}
 	default:
 		return nil
 	}
 	return q
+}
+
+// genQueryString: a query operand; the empty string is a legal bound / operand
+// (the smallest string) even though it is rarely a stored value.
+func genQueryString(r *rand.Rand) string {
+	if r.IntN(12) == 0 {
+		return ""
+	}
+	return genString(r)
 }
 
 func filterProps(schema models.IndexSchema) []string {
@@ -313,7 +322,7 @@ func CompareAnswers(a, b Answer) string {
 		return "duplicate ids in a result list: " + fmtItems(a.Items) + " | " + fmtItems(b.Items)
 	}
 	var onlyA, onlyB []Item
-	for id, x := range am {
+	for id, x := range detRange(am) {
 		y, ok := bm[id]
 		if !ok {
 			onlyA = append(onlyA, x)
@@ -326,7 +335,7 @@ func CompareAnswers(a, b Answer) string {
 			return fmt.Sprintf("id %d: documents differ: %v vs %v", id, x.Doc, y.Doc)
 		}
 	}
-	for id, y := range bm {
+	for id, y := range detRange(bm) {
 		if _, ok := am[id]; !ok {
 			onlyB = append(onlyB, y)
 		}
